@@ -146,8 +146,113 @@ def G_flag(v, name):
     return getattr(v.self._ghost, name)
 
 
+# --------------------------------------------------------------------------- (e) malformed write PDUs change nothing
+from spec import pdu as P
+from . import store_contracts as ST
+from . import codec_contracts as K
+from . import msgs as M
+from .C04 import tables_unchanged
+
+DEC = 'pymodbus.factory.ServerDecoder'
+WRITE_CONTRACTS = ST.SLAVE_CONTRACTS + (K.UnpackBitstring(), K.WMRegsDecode(), K.RWMRegsDecode())
+
+
+def prescribed_length(fc, body):
+    """(length the PDU's own fields prescribe for its body, fields internally consistent) for the write function codes - MODBUS AP v1.1b3 section 6"""
+    if fc in (5, 6):
+        return 4, True
+    if fc == 22:
+        return 6, True
+    if fc == 15:
+        q, bc = P.u16_at(body, 2), L.at(body, 4)
+        return 5 + bc, bc == (q + 7) // 8
+    if fc == 16:
+        q, bc = P.u16_at(body, 2), L.at(body, 4)
+        return 5 + bc, bc == 2 * q
+    q, bc = P.u16_at(body, 6), L.at(body, 8)          # 23
+    return 9 + bc, bc == 2 * q
+
+
+HEAD = {5: 4, 6: 4, 22: 6, 15: 5, 16: 5, 23: 9}
+
+
+def malformed_lemma(fc):
+    """any byte string after a write function code: unless it has exactly the length its own count / byte-count fields prescribe
+    (and those agree), decoding and executing it - whatever the outcome, exception included - leaves all four tables as they were"""
+    def lemma(E):
+        ctx = ST.slave_context(E)
+        body = E.bytes('body', 0, 260)
+        n = L.length(body)
+        before = E.clone(ctx)
+        dec = E.new(DEC)
+
+        def run():
+            req = E.method(dec, 'decode', E.as_bytes(L.concat([fc], body)))
+            if req is None:
+                return None
+            return E.method(req, 'execute', ctx)
+        out = E.attempt(run)
+        unchanged = tables_unchanged(E, ctx, before)
+        if n < HEAD[fc]:
+            E.prove('malformed:shorter-than-the-fixed-fields->no-change', unchanged)
+            return
+        want, consistent = prescribed_length(fc, body)
+        fk = {'finding': 'C12-F2', 'region': n < want} if fc == 15 else {}
+        E.prove('malformed:data-shorter-than-the-fields-prescribe->no-change', L.Implies(n < want, unchanged), **fk)
+        E.prove('malformed:count-and-byte-count-disagree->no-change', L.Implies(L.And(n >= want, L.Not(consistent)), unchanged),
+                **({'finding': 'C12-F2', 'region': P.u16_at(body, 2) > 8 * (n - 5)} if fc == 15 else {}))
+        fk = {'finding': 'C12-F1', 'region': n > want} if fc in (15, 16, 23) else {}
+        E.prove('malformed:bytes-after-the-prescribed-end->no-change', L.Implies(n > want, unchanged), **fk)
+        E.cover('well-formed-reachable')
+    return lemma
+
+
+def malformed_twin(fc):
+    """well-formed write PDUs and their damaged variants (cut by whole registers / odd bytes, extended, counts changed)"""
+    def make(g):
+        r = g.r
+        q = r.choice([1, 1, 2, 3, 8, 9])
+        a = r.randrange(0, 12)
+        if fc in (5, 6):
+            body = [0, a, r.choice([0, 0xFF]), 0]
+        elif fc == 22:
+            body = [0, a, r.randrange(256), r.randrange(256), r.randrange(256), r.randrange(256)]
+        elif fc == 15:
+            nb = (q + 7) // 8
+            body = [0, a, 0, q, nb] + [r.randrange(256) for _ in range(nb)]
+        elif fc == 16:
+            body = [0, a, 0, q, 2 * q] + [r.randrange(256) for _ in range(2 * q)]
+        else:
+            body = [0, r.randrange(0, 12), 0, r.choice([1, 2, 5]), 0, a, 0, q, 2 * q] + [r.randrange(256) for _ in range(2 * q)]
+        what = r.choice(['ok', 'cut-even', 'cut-even', 'cut-odd', 'extend', 'count+', 'count-', 'bc'])
+        if what == 'cut-even' and len(body) > HEAD[fc] + 2:
+            del body[len(body) - 2 * r.randrange(1, (len(body) - HEAD[fc]) // 2 + 1):]
+        elif what == 'cut-odd' and len(body) > 1:
+            del body[len(body) - 1 - 2 * r.randrange(0, 2):]
+        elif what == 'extend':
+            body += [r.randrange(256) for _ in range(r.choice([1, 2, 3]))]
+        elif what in ('count+', 'count-') and fc in (15, 16, 23):
+            i = 3 if fc != 23 else 7
+            body[i] = max(0, body[i] + (1 if what == 'count+' else -1))
+        elif what == 'bc' and fc in (15, 16, 23):
+            i = 4 if fc != 23 else 8
+            body[i] = max(0, body[i] + r.choice([-2, -1, 1, 2]))
+        blocks = {}
+        for t in 'dcih':
+            blocks['ctx_%s_addr' % t] = r.choice([0, 1])
+            blocks['ctx_%s_vals' % t] = {'items': [(r.random() < 0.5) if t in 'dc' else r.randrange(65536) for _ in range(r.choice([16, 30]))]}
+        blocks['body'] = {'items': body}
+        return blocks
+    return make
+
+
 def get_units():
     us = []
+    for fc in (5, 6, 15, 16, 22, 23):
+        us.append(Unit('%s/malformed.fc%02d' % (PROP, fc), malformed_lemma(fc), [PROP], contracts=WRITE_CONTRACTS, twin=malformed_twin(fc),
+                       functions=[M.REQ[fc] + '.decode', M.REQ[fc] + '.execute', DEC + '.decode', DEC + '._helper']))
+    for c in WRITE_CONTRACTS + ST.STORE_CONTRACTS:
+        us.append(c.unit())
     for fe in S.FRONTENDS:
         us.append(Unit('%s/execute.%s' % (PROP, fe), S.serve_unicast(fe, PROP, clauses=('no-exception', 'failure', 'routing')), [PROP], functions=S.FUNCS[fe]))
     for cls in ('ModbusSingleRequestHandler', 'ModbusConnectedRequestHandler', 'ModbusDisconnectedRequestHandler'):
